@@ -57,6 +57,11 @@ CHECKS["C08"] = ("exploration",
   "5,000 (100,000) histories with per-step decoding plus 800 (10,000) prefix sweeps; thorough adds the reference-count cap family (> 65,535 references to one string).",
   "Trusted: the independent decoder (fmt.rs, self-tested against literal fixtures) and the cfb crate as a named-byte-stream store. Only the column type-word bits the format description fixes are compared (size, string, nullable, key, localizable, valid).",
   "DESIGN.md section 4, C08")
+CHECKS["C10"] = ("exploration",
+  "proptest-generated sequences of summary setters/clearers/code-page switches/reopens against a reference record; the saved summary stream is parsed by a strict independent MS-OLEPS parser and compared by property id",
+  "20,000 (300,000) generated sequences; every case ends with a save and reopen. Two oracles: getters vs model (immediately, before close, after reopen) and independent strict parse of the raw stream (alignment, bounds, typed values, contiguity, exact section size).",
+  "Trusted: the independent property-set parser and the code-page oracle. Strings with unrepresentable characters are only checked for no panic / well-formed stream / other properties intact.",
+  "DESIGN.md section 4, C10")
 NOT_YET = {}
 
 def main():
